@@ -7,7 +7,7 @@ prop("C02", pkg="c02",
           "vs decoding the literal. Non-trivial = accepted with a non-zero result, or both rejected a document of >= 8 bytes; distinct = FNV-64 of "
           "(type, documents, entry point, flags, prepopulated).",
      quick=dict(shards=16, scale=1, timeout=900),
-     thorough=dict(shards=16, rounds=8, scale=1.5, timeout=3000),
+     thorough=dict(shards=16, rounds=6, scale=1.2, timeout=3000),
      fuzz=[('FuzzUnmarshalDiff', 120)],
      builds=[dict(name="default", tags=[], race=False), dict(name="purego", tags=["purego"], race=False, thorough_only=True)],
      technique="rapid property-based differential testing against encoding/json over target types x document histories x decoder settings",
